@@ -254,6 +254,97 @@ def noteReferenceError (input : Str) (noteSpan defSpan : Span) (defNote : Option
   | some sp => aerr "note-in-reference" [noteRefSpan input noteSpan, sp]
   | none => aerr "note-in-reference" [noteRefSpan input noteSpan, Span.pos defSpan.stop]
 
+/-- the `intermediate_data` branch of `ingredient`: checks + `resolve_intermediate_ref` -/
+def ingrInter (i : PIngredient α) (igr : Ingredient (ScalableValue α)) (d : Loc InterData) :
+    A α (Ingredient (ScalableValue α)) := do
+  if !igr.modifiers.contains Modifiers.REF then apanic "intermediate data without REF"
+  let invalid := Modifiers.RECIPE ||| Modifiers.HIDDEN ||| Modifiers.NEW
+  if (igr.modifiers.bits &&& invalid) != 0 then aerr "inter-ref-conflicting-modifiers" [i.modifiers.span]
+  match ← resolveInterRef d with
+  | some rel => return { igr with relation := rel }
+  | none => return igr
+
+/-- ADVANCED_UNITS: unit compatibility of the new reference with the definition and its other references
+    (diagnostics only) -/
+def ingrUnitChecks (env : Env) (i : PIngredient α) (newQ : Quantity (ScalableValue α)) (idxs : List Nat) : A α Unit := do
+  let s ← get
+  for idx in idxs do
+    match s.ingredients[idx]?, s.locIngr[idx]? with
+    | some other, some otherLoc =>
+      match other.quantity with
+      | some q =>
+        match compatibleUnit env q.unit newQ.unit with
+        | some _ =>
+          let oldQ := otherLoc.val.quantity
+          let oldSpan := match oldQ with
+            | some oq => (oq.val.unit.map (·.span)).getD oq.span
+            | none => ⟨0, 0⟩
+          if oldQ.isNone then apanic "locations quantity unwrap"
+          let newSpan := match i.quantity with
+            | some nq => (nq.val.unit.map (·.span)).getD nq.span
+            | none => ⟨0, 0⟩
+          awarn "incompatible-units" [newSpan, oldSpan]
+        | none => pure ()
+      | none => pure ()
+    | _, _ => apanic "referenced_from index out of range"
+
+/-- the checks of a resolved regular ingredient reference against its definition (diagnostics only) -/
+def ingrRefChecks (env : Env) (input : Str) (li : Loc (PIngredient α)) (igr : Ingredient (ScalableValue α))
+    (refTo : Nat) (defn : Ingredient (ScalableValue α)) (defLoc : Loc (PIngredient α)) : A α Unit := do
+  let i := li.val
+  if !(!defn.relation.relation.isReference) then apanic "definition is a reference"
+  if env.ext.has Gen.EXT_ADVANCED_UNITS then
+    match igr.quantity with
+    | some newQ => ingrUnitChecks env i newQ (refTo :: defn.relation.relation.referencedFrom)
+    | none => pure ()
+  match i.note with
+  | some n => noteReferenceError input n.span defLoc.span (defLoc.val.note.map (·.span))
+  | none => pure ()
+  let definedInStep := match defn.relation.relation with
+    | .definition _ b => b
+    | .reference _ => true
+  if defn.quantity.isSome && igr.quantity.isSome && !definedInStep then
+    aerr "conflicting-ref-quantity" [(i.quantity.map (·.span)).getD ⟨0, 0⟩, defLoc.span]
+  match igr.quantity, defn.quantity with
+  | some rq, some dq =>
+    let refText := rq.value.val.isText
+    let defText := dq.value.val.isText
+    if refText != defText then
+      let rl := (i.quantity.map (·.span)).getD ⟨0, 0⟩
+      let dl := (defLoc.val.quantity.map (·.span)).getD ⟨0, 0⟩
+      if defLoc.val.quantity.isNone then apanic "definition location quantity unwrap"
+      if refText then awarn "text-value-in-ref" [rl, dl] else awarn "text-value-in-ref" [dl, rl]
+  | _, _ => pure ()
+
+/-- `set_referenced_from` on the ingredient table: the definition at `refTo` lists `newIndex` back -/
+def ingrSetReferencedFrom (refTo newIndex : Nat) (defn : Ingredient (ScalableValue α)) : A α Unit :=
+  match defn.relation.relation with
+  | .definition rf b =>
+    modify fun s => { s with ingredients :=
+      s.ingredients.setIfInBounds refTo { defn with relation := ⟨.definition (rf ++ [newIndex]) b, defn.relation.referenceTarget⟩ } }
+  | .reference _ => apanic "Reference to reference"
+
+/-- the regular branch of `ingredient`: `resolve_reference`, the checks, the back-link -/
+def ingrRegular (env : Env) (input : Str) (li : Loc (PIngredient α)) (igr0 : Ingredient (ScalableValue α)) :
+    A α (Ingredient (ScalableValue α)) := do
+  let i := li.val
+  let s ← get
+  let existing := s.ingredients.toList.map (fun x => (x.name, x.modifiers))
+  let r ← resolveReference env "ingredient"
+    (Modifiers.HIDDEN ||| Modifiers.OPT ||| Modifiers.RECIPE) existing igr0.name igr0.modifiers li.span i.modifiers.span
+  match r.2 with
+  | none => return { igr0 with modifiers := r.1 }
+  | some o =>
+    let igr : Ingredient (ScalableValue α) :=
+      { igr0 with modifiers := r.1, relation := ⟨.reference o.refTo, some .ingredient⟩ }
+    let s ← get
+    match s.ingredients[o.refTo]?, s.locIngr[o.refTo]? with
+    | some defn, some defLoc =>
+      ingrRefChecks env input li igr o.refTo defn defLoc
+      ingrSetReferencedFrom o.refTo s.ingredients.size defn
+    | _, _ => apanic "reference target out of range"
+    return igr
+
 def ingredientA (env : Env) (input : Str) (li : Loc (PIngredient α)) : A α Nat := do
   let i := li.val
   let name0 := i.name.trimmed env.cs
@@ -265,85 +356,65 @@ def ingredientA (env : Env) (input : Str) (li : Loc (PIngredient α)) : A α Nat
     | some q => do let r ← quantityOf env q true; pure (some r)
     | none => pure none)
   let s0 ← get
-  let mut igr : Ingredient (ScalableValue α) :=
+  let igr0 : Ingredient (ScalableValue α) :=
     ⟨name, i.alias.map (·.trimmed env.cs), quantity, i.note.map (·.trimmed env.cs), reference,
      ⟨.definition [] (s0.defineMode != .components), none⟩, i.modifiers.val⟩
-  match i.inter with
-  | some d =>
-    if !igr.modifiers.contains Modifiers.REF then apanic "intermediate data without REF"
-    let invalid := Modifiers.RECIPE ||| Modifiers.HIDDEN ||| Modifiers.NEW
-    if (igr.modifiers.bits &&& invalid) != 0 then aerr "inter-ref-conflicting-modifiers" [i.modifiers.span]
-    match ← resolveInterRef d with
-    | some rel => igr := { igr with relation := rel }
-    | none => pure ()
-  | none =>
-    let s ← get
-    let existing := s.ingredients.toList.map (fun x => (x.name, x.modifiers))
-    let (mods', out) ← resolveReference env "ingredient"
-      (Modifiers.HIDDEN ||| Modifiers.OPT ||| Modifiers.RECIPE) existing igr.name igr.modifiers li.span i.modifiers.span
-    igr := { igr with modifiers := mods' }
-    match out with
-    | none => pure ()
-    | some o =>
-      igr := { igr with relation := ⟨.reference o.refTo, some .ingredient⟩ }
-      let s ← get
-      let defn := s.ingredients[o.refTo]?
-      let defLoc := s.locIngr[o.refTo]?
-      match defn, defLoc with
-      | some defn, some defLoc =>
-        if !(!defn.relation.relation.isReference) then apanic "definition is a reference"
-        if env.ext.has Gen.EXT_ADVANCED_UNITS then
-          match igr.quantity with
-          | some newQ =>
-            let idxs := o.refTo :: defn.relation.relation.referencedFrom
-            for idx in idxs do
-              match s.ingredients[idx]?, s.locIngr[idx]? with
-              | some other, some otherLoc =>
-                match other.quantity with
-                | some q =>
-                  match compatibleUnit env q.unit newQ.unit with
-                  | some _ =>
-                    let oldQ := otherLoc.val.quantity
-                    let oldSpan := match oldQ with
-                      | some oq => (oq.val.unit.map (·.span)).getD oq.span
-                      | none => ⟨0, 0⟩
-                    if oldQ.isNone then apanic "locations quantity unwrap"
-                    let newSpan := match i.quantity with
-                      | some nq => (nq.val.unit.map (·.span)).getD nq.span
-                      | none => ⟨0, 0⟩
-                    awarn "incompatible-units" [newSpan, oldSpan]
-                  | none => pure ()
-                | none => pure ()
-              | _, _ => apanic "referenced_from index out of range"
-          | none => pure ()
-        match i.note with
-        | some n => noteReferenceError input n.span defLoc.span (defLoc.val.note.map (·.span))
-        | none => pure ()
-        let definedInStep := match defn.relation.relation with
-          | .definition _ b => b
-          | .reference _ => true
-        if defn.quantity.isSome && igr.quantity.isSome && !definedInStep then
-          aerr "conflicting-ref-quantity" [(i.quantity.map (·.span)).getD ⟨0, 0⟩, defLoc.span]
-        match igr.quantity, defn.quantity with
-        | some rq, some dq =>
-          let refText := rq.value.val.isText
-          let defText := dq.value.val.isText
-          if refText != defText then
-            let rl := (i.quantity.map (·.span)).getD ⟨0, 0⟩
-            let dl := (defLoc.val.quantity.map (·.span)).getD ⟨0, 0⟩
-            if defLoc.val.quantity.isNone then apanic "definition location quantity unwrap"
-            if refText then awarn "text-value-in-ref" [rl, dl] else awarn "text-value-in-ref" [dl, rl]
-        | _, _ => pure ()
-        -- set_referenced_from
-        let newIndex := s.ingredients.size
-        match defn.relation.relation with
-        | .definition rf b =>
-          modify fun s => { s with ingredients :=
-            s.ingredients.setIfInBounds o.refTo { defn with relation := ⟨.definition (rf ++ [newIndex]) b, defn.relation.referenceTarget⟩ } }
-        | .reference _ => apanic "Reference to reference"
-      | _, _ => apanic "reference target out of range"
+  let igr ← (match i.inter with
+    | some d => ingrInter i igr0 d
+    | none => ingrRegular env input li igr0)
   modify fun s => { s with locIngr := s.locIngr.push li, ingredients := s.ingredients.push igr }
   return (← get).ingredients.size - 1
+
+/-- the checks of a resolved cookware reference against its definition (diagnostics only) -/
+def cwRefChecks (input : Str) (lc : Loc (PCookware α)) (cw : Cookware (ScalableValue α))
+    (defn : Cookware (ScalableValue α)) (defLoc : Loc (PCookware α)) : A α Unit := do
+  let c := lc.val
+  if defn.relation.isReference then apanic "definition is a reference"
+  match c.note with
+  | some n => noteReferenceError input n.span defLoc.span (defLoc.val.note.map (·.span))
+  | none => pure ()
+  let definedInStep := match defn.relation with
+    | .definition _ b => b
+    | .reference _ => true
+  if defn.quantity.isSome && cw.quantity.isSome && !definedInStep then
+    aerr "conflicting-ref-quantity" [(c.quantity.map (·.span)).getD ⟨0, 0⟩, defLoc.span]
+  match cw.quantity, defn.quantity with
+  | some rq, some dq =>
+    let refText := rq.val.isText
+    let defText := dq.val.isText
+    if refText != defText then
+      let rl := (c.quantity.map (·.span)).getD ⟨0, 0⟩
+      let dl := (defLoc.val.quantity.map (·.span)).getD ⟨0, 0⟩
+      if defLoc.val.quantity.isNone then apanic "definition location quantity unwrap"
+      if refText then awarn "text-value-in-ref" [rl, dl] else awarn "text-value-in-ref" [dl, rl]
+  | _, _ => pure ()
+
+/-- `set_referenced_from` on the cookware table -/
+def cwSetReferencedFrom (refTo newIndex : Nat) (defn : Cookware (ScalableValue α)) : A α Unit :=
+  match defn.relation with
+  | .definition rf b =>
+    modify fun s => { s with cookware := s.cookware.setIfInBounds refTo { defn with relation := .definition (rf ++ [newIndex]) b } }
+  | .reference _ => apanic "Reference to reference"
+
+/-- `resolve_reference` + checks + back-link for a cookware item -/
+def cwResolve (env : Env) (input : Str) (lc : Loc (PCookware α)) (cw0 : Cookware (ScalableValue α)) :
+    A α (Cookware (ScalableValue α)) := do
+  let c := lc.val
+  let s0 ← get
+  let existing := s0.cookware.toList.map (fun x => (x.name, x.modifiers))
+  let r ← resolveReference env "cookware item" (Modifiers.HIDDEN ||| Modifiers.OPT)
+    existing cw0.name cw0.modifiers lc.span c.modifiers.span
+  match r.2 with
+  | none => return { cw0 with modifiers := r.1 }
+  | some o =>
+    let cw : Cookware (ScalableValue α) := { cw0 with modifiers := r.1, relation := .reference o.refTo }
+    let s ← get
+    match s.cookware[o.refTo]?, s.locCw[o.refTo]? with
+    | some defn, some defLoc =>
+      cwRefChecks input lc cw defn defLoc
+      cwSetReferencedFrom o.refTo s.cookware.size defn
+    | _, _ => apanic "reference target out of range"
+    return cw
 
 def cookwareA (env : Env) (input : Str) (lc : Loc (PCookware α)) : A α Nat := do
   let c := lc.val
@@ -351,45 +422,10 @@ def cookwareA (env : Env) (input : Str) (lc : Loc (PCookware α)) : A α Nat := 
     | some q => do let r ← valueOf env q.val false; pure (some r)
     | none => pure none)
   let s0 ← get
-  let mut cw : Cookware (ScalableValue α) :=
+  let cw0 : Cookware (ScalableValue α) :=
     ⟨c.name.trimmed env.cs, c.alias.map (·.trimmed env.cs), quantity, c.note.map (·.trimmed env.cs),
      .definition [] (s0.defineMode != .components), c.modifiers.val⟩
-  let existing := s0.cookware.toList.map (fun x => (x.name, x.modifiers))
-  let (mods', out) ← resolveReference env "cookware item" (Modifiers.HIDDEN ||| Modifiers.OPT)
-    existing cw.name cw.modifiers lc.span c.modifiers.span
-  cw := { cw with modifiers := mods' }
-  match out with
-  | none => pure ()
-  | some o =>
-    cw := { cw with relation := .reference o.refTo }
-    let s ← get
-    match s.cookware[o.refTo]?, s.locCw[o.refTo]? with
-    | some defn, some defLoc =>
-      if defn.relation.isReference then apanic "definition is a reference"
-      match c.note with
-      | some n => noteReferenceError input n.span defLoc.span (defLoc.val.note.map (·.span))
-      | none => pure ()
-      let definedInStep := match defn.relation with
-        | .definition _ b => b
-        | .reference _ => true
-      if defn.quantity.isSome && cw.quantity.isSome && !definedInStep then
-        aerr "conflicting-ref-quantity" [(c.quantity.map (·.span)).getD ⟨0, 0⟩, defLoc.span]
-      match cw.quantity, defn.quantity with
-      | some rq, some dq =>
-        let refText := rq.val.isText
-        let defText := dq.val.isText
-        if refText != defText then
-          let rl := (c.quantity.map (·.span)).getD ⟨0, 0⟩
-          let dl := (defLoc.val.quantity.map (·.span)).getD ⟨0, 0⟩
-          if defLoc.val.quantity.isNone then apanic "definition location quantity unwrap"
-          if refText then awarn "text-value-in-ref" [rl, dl] else awarn "text-value-in-ref" [dl, rl]
-      | _, _ => pure ()
-      let newIndex := s.cookware.size
-      match defn.relation with
-      | .definition rf b =>
-        modify fun s => { s with cookware := s.cookware.setIfInBounds o.refTo { defn with relation := .definition (rf ++ [newIndex]) b } }
-      | .reference _ => apanic "Reference to reference"
-    | _, _ => apanic "reference target out of range"
+  let cw ← cwResolve env input lc cw0
   modify fun s => { s with locCw := s.locCw.push lc, cookware := s.cookware.push cw }
   return (← get).cookware.size - 1
 
